@@ -1288,7 +1288,7 @@ func rule096(r *core.Run) {
 		name := fname(r, f)
 		for i, c := range nexts {
 			args := c.Common().Args
-			r.Check(len(args) == 2 && args[0] == w && args[1] == rq, "R09.6", key(name, "next args", sprintf("#%d", i)), pos(r, c.(ssa.Instruction)),
+			r.Check(len(args) == 2 && args[0] == w && sameRequest(r, args[1], rq, 0), "R09.6", key(name, "next args", sprintf("#%d", i)), pos(r, c.(ssa.Instruction)),
 				"next.ServeHTTP(w, rq) with the incoming writer and request", "the next handler is not called with the incoming ResponseWriter and Request")
 			// never twice on one path
 			for j, d := range nexts {
@@ -1444,4 +1444,42 @@ func installNonNilHook(r *core.Run, ctx *oblig.Ctx) {
 		}
 		return check()
 	}
+}
+
+// sameRequest reports whether v is the incoming request rq, or a shallow copy
+// of it that differs only in its context ((*http.Request).WithContext, directly
+// or through a repository helper all of whose returns are such copies of its
+// request parameter).
+func sameRequest(r *core.Run, v, rq ssa.Value, depth int) bool {
+	if v == rq {
+		return true
+	}
+	c, ok := v.(*ssa.Call)
+	if !ok || depth > 3 {
+		return false
+	}
+	if r.P.CalleeName(c) == "(*net/http.Request).WithContext" {
+		return sameRequest(r, c.Call.Args[0], rq, depth+1)
+	}
+	callee := c.Call.StaticCallee()
+	if callee == nil || !r.P.IsRepo(callee) || len(callee.Blocks) == 0 {
+		return false
+	}
+	// which argument is the request?
+	for i, a := range c.Call.Args {
+		if !sameRequest(r, a, rq, depth+1) || i >= len(callee.Params) {
+			continue
+		}
+		all := true
+		rets := core.Returns(callee)
+		for _, ret := range rets {
+			if len(ret.Results) != 1 || !sameRequest(r, ret.Results[0], callee.Params[i], depth+1) {
+				all = false
+			}
+		}
+		if all && len(rets) > 0 {
+			return true
+		}
+	}
+	return false
 }
